@@ -3129,7 +3129,10 @@ public:
     {
         if(is_constant_evaluated())
         {
-            return string_length(data());
+            // the array is not required to be null-terminated, don't look
+            // past its end
+            return static_cast<std::size_t>(
+                std::find(begin(), end(), '\0') - begin());
         }
         else
         {
